@@ -7,6 +7,7 @@
 package dbSync
 
 import (
+	"runtime"
 	"bufio"
 	"fmt"
 	"strconv"
@@ -109,6 +110,10 @@ type syncConfig struct {
 	// than the sender's 500 ms flush period, to produce trickling streams) and "all remaining
 	// segments in one write" (a burst)
 	Pauses bool `json:"pauses,omitempty"`
+	// AtTick replaces the environment answers by {deliver, tick, deliver the segment at the moment
+	// the sender handles its next flush-timer case} (the seam verifTimerCase): a command that
+	// arrives between "the timer fired" and "the sender looks at its queue"
+	AtTick bool `json:"at_tick,omitempty"`
 }
 
 func (c syncConfig) apply() {
@@ -309,6 +314,30 @@ func syncExecuteWith(t *testing.T, cfg syncConfig, segs [][]byte, srv *mredis.Se
 			if cfg.Pauses {
 				nchoices = 5
 			}
+			// at-tick deliveries: the hook runs on the sender's goroutine
+			var tickMu sync.Mutex
+			var tickPending []byte
+			var tickAt time.Duration
+			if cfg.AtTick {
+				hook.SetTimerCaseHook(func() {
+					tickMu.Lock()
+					p := tickPending
+					tickPending = nil
+					if p != nil {
+						tickAt = time.Since(t0)
+					}
+					tickMu.Unlock()
+					if p == nil {
+						return
+					}
+					ss.Write(p)
+					// let the parser hand the command to the queue before the sender looks at it
+					for k := 0; k < 20000 && len(ds.sendBuf) == 0; k++ {
+						runtime.Gosched()
+					}
+				})
+				defer hook.SetTimerCaseHook(nil)
+			}
 			point := func() {
 				n := 0
 				for _, a := range srv.Applied() {
@@ -319,7 +348,32 @@ func syncExecuteWith(t *testing.T, cfg syncConfig, segs [][]byte, srv *mredis.Se
 				res.Timeline = append(res.Timeline, syncPoint{At: time.Since(t0), Applied: n})
 			}
 			for i := 0; i < len(segs); {
-				switch ch.Choose(nchoices) {
+				choice := ch.Choose(nchoices)
+				if cfg.AtTick && choice == 2 {
+					choice = 5
+				}
+				switch choice {
+				case 5:
+					tickMu.Lock()
+					tickPending = segs[i]
+					tickMu.Unlock()
+					time.Sleep(500 * time.Millisecond)
+					synctest.Wait()
+					tickMu.Lock()
+					left := tickPending
+					tickPending = nil
+					at := tickAt
+					tickMu.Unlock()
+					if left != nil {
+						// no timer case ran within a flush period: ordinary delivery
+						ss.Write(left)
+						at = time.Since(t0)
+						res.Steps = append(res.Steps, fmt.Sprintf("tick, deliver %d", i))
+					} else {
+						res.Steps = append(res.Steps, fmt.Sprintf("deliver %d inside the sender's timer case", i))
+					}
+					res.DeliveredAt = append(res.DeliveredAt, at)
+					i++
 				case 0:
 					ss.Write(segs[i])
 					res.Steps = append(res.Steps, fmt.Sprintf("deliver %d", i))
